@@ -25,12 +25,13 @@ const (
 )
 
 type gRef struct {
-	Alias  bool // the reference names the target by its alias
-	Target int
-	VMode  int
-	VLit   string
-	For    []string   // for-list items (nil = plain reference)
-	Matrix [][]string // two axes (nil = none); item label = a-b, row-major
+	Alias     bool // the reference names the target by its alias
+	Target    int
+	VMode     int
+	VLit      string
+	For       []string   // for-list items (nil = plain reference)
+	Matrix    [][]string // two axes (nil = none); item label = a-b, row-major
+	MatrixRef int        // bit 0: axis A is given as ref: <expression yielding the list>, bit 1: axis B
 }
 
 type gCmd struct {
@@ -172,6 +173,7 @@ func genRef(ch *vs.Choices, p *gProg, from, n int, b gBias, allowLoop bool) (gRe
 	if allowLoop && ch.Pct(b.PLoop) {
 		if b.Matrix && ch.Bool(1, 3) {
 			r.Matrix = [][]string{[]string{"p", "q"}[:1+ch.Draw(2)], []string{"x", "y"}[:1+ch.Draw(2)]}
+			r.MatrixRef = ch.Draw(4)
 		} else {
 			r.For = []string{"x", "y", "z"}[:1+ch.Draw(3)]
 		}
@@ -492,7 +494,13 @@ func renderRefVars(p *gProg, from *gTask, r gRef, edge string, deferTpl bool) st
 
 func renderFor(r gRef) string {
 	if r.Matrix != nil {
-		return fmt.Sprintf("for: {matrix: {A: [%s], B: [%s]}}", strings.Join(r.Matrix[0], ", "), strings.Join(r.Matrix[1], ", "))
+		axis := func(i int) string {
+			if r.MatrixRef&(1<<i) != 0 {
+				return fmt.Sprintf("{ref: 'splitList \" \" \"%s\"'}", strings.Join(r.Matrix[i], " "))
+			}
+			return "[" + strings.Join(r.Matrix[i], ", ") + "]"
+		}
+		return fmt.Sprintf("for: {matrix: {A: %s, B: %s}}", axis(0), axis(1))
 	}
 	if r.For != nil {
 		return fmt.Sprintf("for: [%s]", strings.Join(r.For, ", "))
